@@ -57,7 +57,7 @@ except Exception as e:
 '''
 
 
-def validate_stub(rep, tier):
+def validate_stub(rep, tier, seed=0):
     """the stub against the REAL import system on a vendored on-disk copy of the same tree (fresh
     subprocess per program): sequence of module executions and logged values must coincide"""
     n = 0
@@ -75,6 +75,8 @@ def validate_stub(rep, tier):
             with open(runner, "w") as f:
                 f.write(RUNNER)
             progs = [p for p in fam.programs() if p[0].endswith(":module") or (tier == "thorough" and p[0].endswith(":function"))]
+            if tier == "quick":
+                progs = [p for k, p in enumerate(progs) if ":pair_" not in p[0] or k % 3 == seed % 3]
             for desc, src in progs:
                 rel = "rel" in desc
                 for anchor in (("pkg", "pkg.sub") if rel else ("-",)):
@@ -156,11 +158,15 @@ def run(tier):
     seed = common.seed()
     rep = common.Report("C14", tier, "translation_validation")
     known = common.Known("C14")
-    nval = validate_stub(rep, tier)
+    nval = validate_stub(rep, tier, seed)
     if rep.harness_errors:
         return rep.finish()
     tpls = []
-    for k, (desc, src) in enumerate(fam.programs()):
+    allp = list(fam.programs())
+    if tier == "quick":
+        # pair forms: a seed-rotated half of the module placements and an eighth of the other placements
+        allp = [p for k, p in enumerate(allp) if ":pair_" not in p[0] or (k % 2 == seed % 2 if p[0].endswith(":module") else k % 8 == seed % 8)]
+    for k, (desc, src) in enumerate(allp):
         t = sce.Template(desc, src, PARAMS, PRE, observe="trace+globals", budget=300, samples=samples())
         if tier == "quick":
             t.sem_configs = [common.SEM_CONFIGS[(k + seed) % 4]]
@@ -175,12 +181,12 @@ def run(tier):
     cov = rep.coverage
     cov.update(agg["stats"])
     cov["samples"] = agg["samples"][:3]
-    cov["universe"] = {"forms": len(fam.FORMS), "programs": len(tpls)}
-    cov["exhaustive"] = True
+    cov["universe"] = {"forms": len(fam.FORMS), "pair_forms": len(fam._pair_forms()), "programs_universe": len(list(fam.programs())), "programs": len(tpls)}
+    cov["exhaustive"] = tier == "thorough"
     cov["inconclusive_obligations"] = agg["inconclusive"][:50]
     cov["stub_validation_cases"] = nval
     cov["functions_encoded"] = ["oneliner.convert_code_string (concrete)", "converted text (symbolic): PendingImport.get_result / PendingImportFrom.get_result, Namespace*.get_assign", "vf.models.importstub.ImportStub (stub import system, both sides)"]
-    cov["bounds"] = "24 statement forms x placement {module, function, class, function with global declaration, captured by an inner function}; symbolic environment: which of the 6 modules of the abstract tree are already imported, whether pkg.other is an attribute or a submodule, the anchor package of relative imports (pkg / pkg.sub), all module attribute values"
+    cov["bounds"] = "24 statement forms + every ordered pair of 10 single-alias items in one import statement (91 forms) x placement {module, function, class, function with global declaration, captured by an inner function}; symbolic environment: which of the 6 modules of the abstract tree are already imported, whether pkg.other is an attribute or a submodule, the anchor package of relative imports (pkg / pkg.sub), all module attribute values"
     cov["explanation"] = "one PEP-316 condition per (program, configuration): over every import environment the order and count of module executions, the logged identities/values of the bound names, the scope they are bound in and the final globals of exec(source) and eval(converted) coincide"
     rep.assumptions += ["stub: the import system is replaced on both sides by vf.models.importstub (validated against the real import system on a vendored on-disk copy of the tree in %d fresh-process runs at check start)" % nval, "the source reaches the stub through CPython's real IMPORT_NAME/IMPORT_FROM byte-code"]
     return rep.finish()
